@@ -1,16 +1,22 @@
 #!/usr/bin/env python3
-"""tools/import_seed.py Cxx k  -> copies /tmp/seeded_out/Cxx/{patch,demo,meta}<k>.* to seeded/Cxx-<k>/"""
-import json, os, shutil, sys
-prop, k = sys.argv[1], sys.argv[2]
-src = "/tmp/seeded_out/%s" % prop
-dst = os.path.join(os.path.dirname(os.path.dirname(os.path.abspath(__file__))), "seeded", "%s-%s" % (prop, k))
+"""tools/import_seed.py Cxx k [--src /tmp/seeded_out] [--name Cxx-k]
+copies <src>/Cxx/{patch,demo,meta}<k>.* to seeded/<name>/"""
+import argparse, json, os, shutil
+ap = argparse.ArgumentParser()
+ap.add_argument("prop")
+ap.add_argument("k")
+ap.add_argument("--src", default="/tmp/seeded_out")
+ap.add_argument("--name")
+a = ap.parse_args()
+src = os.path.join(a.src, a.prop)
+name = a.name or "%s-%s" % (a.prop, a.k)
+dst = os.path.join(os.path.dirname(os.path.dirname(os.path.abspath(__file__))), "seeded", name)
 os.makedirs(dst, exist_ok=True)
-shutil.copy(os.path.join(src, "patch%s.diff" % k), os.path.join(dst, "patch.diff"))
-shutil.copy(os.path.join(src, "demo%s.py" % k), os.path.join(dst, "demo.py"))
-meta = json.load(open(os.path.join(src, "meta%s.json" % k)))
-meta["property"] = prop
+shutil.copy(os.path.join(src, "patch%s.diff" % a.k), os.path.join(dst, "patch.diff"))
+shutil.copy(os.path.join(src, "demo%s.py" % a.k), os.path.join(dst, "demo.py"))
+meta = json.load(open(os.path.join(src, "meta%s.json" % a.k)))
+meta["property"] = a.prop
 meta["demo"] = "demo.py"
 meta["origin"] = "independent sub-agent given only the property text and a scratch worktree"
-meta.setdefault("confirmed", {})
 json.dump(meta, open(os.path.join(dst, "meta.json"), "w"), indent=1)
 print(dst)
